@@ -193,7 +193,7 @@ func TestC09(t *testing.T) {
 		cfg.Encryption = rapid.SampledFrom([]string{"age", "pgp"}).Draw(t, "encryption!")
 		g := hist.NewGen(t, c09Weights, c09Universe, 4, cfg.RecordSize)
 		g.Markers = true
-		g.Avoid = avoidFor("C09")
+		g.Avoid = f33Avoid(cfg, avoidFor("C09"))
 		if guard("F-33") && cfg.Compression == "parallelbzip2" && cfg.Encryption == "pgp" {
 			g.MaxSize = 90000
 		}
